@@ -83,6 +83,7 @@ type pathState struct {
 	inputs      []InputRec
 	fuel        int64
 	observed    []string
+	printed     []value // everything origami wrote with fmt.Print*/Fprint* on this path (symx.PrintedAt)
 	reached     map[string]bool
 	knownP      []knownPanic
 	solverFresh bool
